@@ -2,10 +2,10 @@ SPECIFICATION Spec
 CONSTANTS
   Calls = {1, 2, 3}
   Hashes <- ModelHashes2
-  MaxLanes = 1
-  Kinds = {"line", "pchan"}
-  LaneCounts = {1}
-  QSizes = {0, 1}
+  MaxLanes = 2
+  Kinds = {"mline"}
+  LaneCounts = {2}
+  QSizes = {1}
   HashBits = 3
   Fails = {FALSE}
   Pres = {FALSE}
